@@ -131,6 +131,19 @@ CHECKS = {
    note="Trusted: sorted() contract, dict insertion order, the conservative static frame analysis and its name-based call graph, the shape "
         "rules (a function that leaves its shape is undecided, never proved). Balanced nesting assumes no property is named BEGIN/END.",
    technique="contract-based deductive verification: pyvc order obligations + static frame (modifies {}) and determinism analysis over the real AST; bounded stand-in"),
+ "C03": dict(
+   category="proof", design_ref="DESIGN.md section 8 C03",
+   text="vDate, vDatetime (naive and UTC), vTime, vUTCOffset and vDuration to_ical/from_ical are symbolically executed with strings of "
+        "known shape (fixed-width fields as digit arithmetic, numerals as tokens, DURATION_REGEX read from the source and matched on "
+        "tokens): proved for all values at once that decoding the encoded text gives the value back, that the text has the RFC grammar, "
+        "and that every grammar-shaped text decodes to the value the RFC assigns or raises ValueError when it denotes none; "
+        "vDDDTypes.from_ical routes each of 29 grammar shapes to its decoder and vPeriod.from_ical sends both halves through it. BOOLEAN, "
+        "weekday, frequency, month are enumerated completely. INTEGER/FLOAT/BINARY/GEO/URI/CAL-ADDRESS/PERIOD values are a labelled "
+        "bounded stand-in.",
+   note="Trusted: date/time constructor contracts (validity predicate cross-checked), strftime('%H%M%S'), int() on ASCII digits, "
+        "tzid_from_dt / localize_utc contracts, the shape-string semantics of vc/pyvc/chars.py. Known findings C03-F1/F3 (float exponent "
+        "form), C03-F2 (TIME with Z decoded naive).",
+   technique="contract-based deductive verification: AST->z3 VCs (pyvc) over shaped strings and calendar fields; fin for finite types; bounded stand-in"),
 }
 NA_REASON = "check not built yet (build round in progress; DESIGN.md section 8 describes the planned contracts)"
 
